@@ -35,10 +35,12 @@ Definition sh_dec (s : list Z) : list Z :=
   end.
 Definition sh_decn (s : list Z) : list Z :=
   match decode_nochecksum s with
-  | ROk (h, d) => match from_u5_strict d with
-                  | Some bs => 1 :: Z.of_nat (List.length h) :: (map to_lower h ++ bs)
-                  | None => [2]
-                  end
+  | ROk (h, d) =>
+      if negb (list_eqb (map to_lower h) [108; 110; 111]) then [3]
+      else match from_u5_strict d with
+           | Some bs => 1 :: bs
+           | None => [2]
+           end
   | RErr _ => [0]
   end.
 Definition optint (o : option (list Z)) : Z :=
@@ -315,7 +317,7 @@ def corr_bech32(ctx, recs, rng):
         for _ in range(4):
             i = rng.below(len(s))
             strs12.append(s[:i] + CHARSET[rng.below(32)] + s[i + 1:])
-    strs12 += ["lno1", "lno1q", "lno1qq", "lno1pg", "lno1pqq", "lno1zzzzzzzz", "lno", "1"]
+    strs12 += ["lno1", "lno1q", "lno1qq", "lno1pg", "lno1pqq", "lno1zzzzzzzz", "lno", "1", "lnr1qq", "lnr1q", "LNO1PG", "lNo1pg", "lno1pb"]
     strs12 = list(dict.fromkeys(strs12))
     ev = Eval(ctx)
     for s in strs12:
@@ -324,19 +326,21 @@ def corr_bech32(ctx, recs, rng):
     exprs = ["map sh_decn [" + "; ".join(codes(s) for s in strs12[i:i + 10]) + "]" for i in range(0, len(strs12), 10)]
     vals = ctx.coq_eval("c18_decn", IMPORTS, exprs, prelude=PRELUDE, shards=min(16, len(exprs)))
     model = lists(vals)
-    kinds = {"Ok": 0, "ErrPadding": 0, "Err": 0}
+    kinds = {}
     for s, a, m in zip(strs12, impl, model):
         kinds[a.split(" ")[0]] = kinds.get(a.split(" ")[0], 0) + 1
         if a.startswith("Ok "):
-            _, h, by = (a.split(" ") + [""])[:3]
-            h = bytes.fromhex(h).decode().lower()
-            want = [1, len(h)] + [ord(c) for c in h] + list(bytes.fromhex(by))
+            good = m == [1] + list(bytes.fromhex(a[3:]))
+        elif a == "OkLayer":
+            good = m[:1] == [1]
         elif a == "ErrPadding":
-            want = [2]
+            good = m == [2]
+        elif a == "ErrHrp":
+            good = m == [3]
         else:
-            want = [0]
-        if want != m:
-            dis.append({"topic": "BOLT 12 string decode (NoChecksum + validate_segwit_padding + byte_iter)", "input": s[:300], "impl": a[:120], "model": m[:40]})
+            good = m == [0]
+        if not good:
+            dis.append({"topic": "BOLT 12 string decode (Offer::from_str: NoChecksum, hrp, validate_segwit_padding, byte_iter)", "input": s[:300], "impl": a[:120], "model": m[:40]})
     ctx.coverage["corr_bolt12_strings"] = dict(kinds, total=len(strs12))
     return dis
 
@@ -569,11 +573,12 @@ def run(ctx):
     corr_err = None
     if okm:
         try:
+            import time as _t
             rng = ctx.rng.fork("corr")
-            dis += corr_bech32(ctx, recs, rng.fork("bech32"))
-            dis += corr_bolt11(ctx, recs, rng.fork("bolt11"))
-            dis += corr_merkle(ctx, recs, rng.fork("merkle"))
-            dis += corr_meta(ctx, recs, rng.fork("meta"))
+            for name, fn in (("bech32", corr_bech32), ("bolt11", corr_bolt11), ("merkle", corr_merkle), ("meta", corr_meta)):
+                t0 = _t.time()
+                dis += fn(ctx, recs, rng.fork(name))
+                ctx.timed("corr_%s_s" % name, _t.time() - t0)
         except RuntimeError as ex:
             corr_err = str(ex)[-2000:]
     n_eval = sum(v if isinstance(v, int) else 0 for v in ctx.coverage.get("bolt11_mutations", {}).values()) + ctx.coverage.get("bolt12_signed_bit_flips", 0) \
